@@ -70,6 +70,9 @@ for g in raw["census"]:
 # comparison operators of the kept constants (boundary semantics: `<` vs `<=` at a threshold)
 kept = {(c["pkg"], c["name"]) for c in out["constants"]}
 out["cmps"] = [c for c in raw.get("cmps", []) if (c["pkg"], c["name"]) in kept]
+# tests of strings against codec names, and literal constants of the decoder-reachable codec kernels: kept as discovered
+out["name_tests"] = raw.get("name_tests", [])
+out["kernels"] = raw.get("kernels", [])
 json.dump(out, open('/verif/spec/format6.json', 'w'), indent=1)
 print(len(out["constants"]), "constants,", len(out["tables"]), "tables,", sum(len(g["entries"]) for g in out["census"]), "census entries;",
       len(out["dropped"]), "+", len(out["dropped_tables"]), "+", len(out["dropped_census"]), "dropped")
